@@ -335,4 +335,33 @@ def run(ctx):
         else:
             unclassified.append(wf)
     for wf in unclassified:
-        ctx.missing("per-utterance field %s.%s is written while decoding but neither reset at the start of an utterance nor classified in the table (needs a human classification)" % wf)
+        # a field the table does not know (added since the rules were confirmed), written while decoding and
+        # not reset: harmless only if nothing that decodes ever reads what an earlier utterance left in it -
+        # every read is an argument of a log message, or is preceded in its function by a store to the field
+        # on every path (scratch); otherwise a later utterance reads what an earlier one wrote
+        carried = None
+        nreads = 0
+        for n in proc:
+            for g in P.fn_index.get(n, []):
+                if g.unit.startswith("fixture"):
+                    continue
+                st = [s_ for s_ in paths.stores(g) if written_field(g, s_) == wf]
+                plain_lhs = set(s_["lhs"] for s_ in st if s_["op"] == "=")
+                snodes = set(s_["node"] for s_ in st)
+                for i in g.walk():
+                    nd = g.nodes[i]
+                    if nd["k"] != "Member" or (nd.get("rec"), nd.get("field")) != wf or i in plain_lhs or g.strip(i) in plain_lhs:
+                        continue
+                    if any(g.k(a_) in ("Subscript",) and g.strip(g.ch(a_)[0]) == i and (a_ in plain_lhs or any(g.strip(l_) == a_ for l_ in plain_lhs)) for a_ in g.ancestors(i)):
+                        continue        # the base of an element that is being assigned
+                    nreads += 1
+                    if any(g.k(a_) == "Call" and g.nodes[a_].get("callee") in ("err_msg", "err_msg_system") for a_ in g.ancestors(i)):
+                        continue
+                    if snodes and paths.always_before(g, i, lambda e: e in snodes):
+                        continue
+                    carried = carried or (g, i)
+        if carried is None:
+            ctx.ok(g3, "%s.%s" % wf, W[wf].where(W[wf].root), "not in the table: written while decoding, %d read(s), each a log argument or preceded by a store in its function (statistics / scratch)" % nreads)
+        else:
+            g, i = carried
+            ctx.bad(g3, "%s.%s" % wf, g.where(i), "`%s.%s` is written while an utterance is processed (%s), is not reset where an utterance starts, and is read here by %s before anything in this call stored it: what an earlier utterance left in it decides what this one computes" % (wf[0], wf[1], W[wf].name, g.name))
